@@ -203,6 +203,10 @@ def explore_case(program, tier):
     # attacker sweeps
     victims = ['c%d' % (i + 1) for i in range(ncont)]
     positions = F.attack_positions(ctx0, 0)
+    if len(victims) > 1:
+        for t, j in positions:
+            if j <= 1:
+                one(F.abort_all_attack(program, t, j), [], 'closeall', None)
     for v in victims:
         for t, j in positions:
             for first in (True, False):
